@@ -7,6 +7,12 @@ import (
 
 func DecodeSecret(secret string) ([]byte, error) {
 	secret = strings.TrimSpace(secret)
+	for i := 0; i < len(secret); i++ {
+		if secret[i] >= 0x80 {
+			// non-ASCII letters such as U+0131 or U+017F must not be case-folded into the alphabet
+			return nil, base32.CorruptInputError(i)
+		}
+	}
 	if n := len(secret) % 8; n != 0 {
 		secret = secret + strings.Repeat("=", 8-n)
 	}
